@@ -336,6 +336,10 @@ namespace
     {
         char big[300];
     };
+    struct alignas(64) AlignedDerived : Base
+    {
+        char more[100]; // alignof(AlignedDerived) != alignof(Base)
+    };
     struct BigDerived : Base
     {
         char big[70000]; // sizeof > 65535
@@ -1059,6 +1063,13 @@ namespace
                     // recorded finding F7 (probe only): allocator_polymorphic_deleter keeps the
                     // size of the derived type in an unsigned short
                     fm::unique_base_ptr<Base, Leaf<3>> bp = fm::allocate_unique<BigDerived>(leaf);
+                    (void)bp;
+                }
+                else if (op.b % 4 >= 2)
+                {
+                    // the derived type is more strictly aligned than the base: the release has to
+                    // carry the derived type's alignment
+                    fm::unique_base_ptr<Base, Leaf<3>> bp = fm::allocate_unique<AlignedDerived>(leaf);
                     (void)bp;
                 }
                 else
